@@ -83,3 +83,10 @@ P['C14'] = dict(
     jobs=[_sub_job('subscribe_verdicts', 0, 14, 5, 7, ['request-on-wire', 'acked', 'bad-ack', 'reconnected', 'success-checked']),
           _sub_job('unsubscribe_verdicts', 1, 14, 5, 7, ['request-on-wire', 'acked', 'bad-ack', 'success-checked'])])
 P['C02']['jobs'] += [_sub_job('subscribe_no_loss', 0, 2, 4, 6, ['request-completed']), _sub_job('unsubscribe_no_loss', 1, 2, 4, 6, ['request-completed'])]
+
+P['C04'] = dict(
+    level_text='The real mqtt_client receives PUBLISH packets (QoS 0/1/2, symbolic topic/payload bytes and Message Expiry) from a protocol-conformant broker model; every order of new messages, PUBREL, completion of the client\'s acknowledgement writes, connection loss and reconnect with Session Present 0/1 (followed by the broker\'s DUP retransmissions and PUBREL retransmissions) is explored, then a fault-free suffix. Monitors: acknowledgement type and id per QoS, PUBCOMP only after PUBREL, every PUBREL answered, delivered topic/payload/properties equal the sent ones, QoS 2 at most once and exactly once when the exchange completes, QoS 1 at least once, order per QoS level.',
+    level_note='Bounds: 2 messages, 1 connection loss, 6 (quick) / 8 (thorough) steps; backlog limit 65535 of the receive channel not reached. The broker retransmits only after a reconnect that resumes the session (MQTT-4.4.0-1).',
+    assumptions=_pub_assume[:2] + ['broker model is a conformant MQTT sender: DUP retransmission of unacknowledged PUBLISH and of PUBREL only after a reconnect with Session Present 1'],
+    jobs=[dict(name='inbound', tu='harness/w_recv.cpp', entry='h_recv', engine='B', clock=True, defs={'VK_MSGS': 2}, defs_quick={'VK_STEPS': 6}, defs_thorough={'VK_STEPS': 8},
+               reach=['qos0-delivered', 'qos1-delivered', 'qos2-delivered', 'pubrel-sent', 'pubcomp-received', 'session-lost', 'session-resumed', 'publish-retransmitted', 'pubrel-retransmitted', 'write-lost-in-flight'], samples=10)])
